@@ -488,7 +488,12 @@ func c12Tree(r *ev.Run, tr c12tree, dir string, otherCp *c12cp) *c12cp {
 			}
 		}
 		// corruption: for small trees, every bit of every chunk (first distinct chunkings only)
-		if small && (first || n <= 3) && len(tr.Contents) <= 4 {
+		corruptOK := len(tr.Contents) <= 4 && (first || n <= 3)
+		if !r.Thorough() {
+			// quick tier: bit-level corruption on the trees with at most 2 keys, first chunking only
+			corruptOK = len(tr.Contents) >= 1 && len(tr.Contents) <= 2 && first
+		}
+		if small && corruptOK {
 			first = false
 			be := kv.Backends[(len(tr.Contents)+n)%2]
 			for ci, ch := range cp.chunks {
